@@ -408,6 +408,11 @@ func (app *App) stateManager() appState {
 		return stateManager
 	}
 
+	if clusterState[master] == nil || clusterStateDcs[master] == nil {
+		app.logger.Error().Msgf("master %s is not among registered cluster nodes, can't manage the cluster", master)
+		return stateManager
+	}
+
 	// activeNodes are master + alive running replicas
 	activeNodes, err := app.GetActiveNodes()
 	if err != nil {
